@@ -26,7 +26,7 @@ var srcC17 = []*g2lTarget{
 	{
 		// `run` (process + pipes + decoding into &metadata) is an oracle: a parameter that returns the new
 		// value of metadata and the error
-		file: "plugin/plugin.go", recv: "CLIPlugin", fn: "GetMetadata", leanName: "CLIPlugin.GetMetadata",
+		file: "plugin/plugin.go", recv: "CLIPlugin", fn: "GetMetadata", recvName: "p", leanName: "CLIPlugin.GetMetadata",
 		params: "(runO : String → String → plugin.GetMetadataRequest → plugin.GetMetadataResponse → " +
 			"plugin.GetMetadataResponse × Option GoLite.Err) (p : CLIPlugin) (req : plugin.GetMetadataRequest)",
 		ret:       "Option plugin.GetMetadataResponse × Option GoLite.Err",
@@ -57,7 +57,7 @@ var srcC17b = []*g2lTarget{
 		// the receiver is a pointer whose field N the method updates: `l` is threaded through (capture) and
 		// handed back after the results; the underlying writer `l.W` is an oracle (a field holding ANY function
 		// from the bytes it is handed to a count and an error)
-		file: "internal/io/limitedwriter.go", recv: "LimitedWriter", fn: "Write", leanName: "LimitedWriter.Write",
+		file: "internal/io/limitedwriter.go", recv: "LimitedWriter", fn: "Write", recvName: "l", leanName: "LimitedWriter.Write",
 		params:    "(l : LimitedWriter) (p : List UInt8)",
 		ret:       "Int × Option GoLite.Err × LimitedWriter",
 		retOpt:    []bool{false, true},
